@@ -16,10 +16,12 @@ import Sigc.SlotGLemmasFuel
     transfer `blocked_` (C15);
   * (c) `connected_iff`, `connected_stays`, `connected_false_forever`, `conn_false_after_*` — a connection made from
     a slot variable tells the truth (C04);
-  * (d) `rep_held_unique`, `functor_copy_held`, `owned_has_owner` — functor accounting.
+  * (d) `rep_held_unique`, `live_count_spec`, `owned_has_owner` — functor accounting.
 
-  The rule `xparent` of the language excludes the region of finding F10 (docs/SLOTG.md): without it `wf_reachable`
-  is false for the code as it is (the new representation keeps a dangling `parent_`).
+  The model is the library *after* the fixes of findings F10 (a8d1bb0) and F11 (6def444) (docs/SLOTG.md): both
+  assignment operators let the variable refer to the new representation before the old one is deleted.  There is no
+  `xparent` rule any more: `wf_reachable` holds for every program, and `exchange_no_dead_parent` states the F10
+  situation explicitly.
 -/
 namespace Sigc.SlotG
 open Blk
@@ -62,9 +64,9 @@ theorem no_dangling (ops : List Op) :
   intro s
   have hw : WF s := wf_reachable ops
   have h := hw.inv
-  refine ⟨?_, h.cbsConn, ?_, ⟨h.repAlive, h.repUniq, hw.held⟩, ?_, ?_, ?_, h.ownOk⟩
+  refine ⟨?_, fun r R c hR hm => hw.cbsConn' hR hm, ?_, ⟨h.repAlive, h.repUniq, hw.held⟩, ?_, ?_, ?_, h.ownOk⟩
   · intro c v hc
-    obtain ⟨r, R, hr, hR, hm⟩ := h.connReg c v hc
+    obtain ⟨r, R, hr, hR, hm⟩ := hw.connReg' hc
     obtain ⟨V, hV, hVr⟩ := repOf_eq.mp hr
     exact ⟨V, r, R, hV, hVr, hR, hm, h.cbsNodup r R hR⟩
   · intro r R p hR hp
@@ -93,6 +95,41 @@ def exGraph : List Op :=
 example : (run exGraph).conns 1 = some (some 1) ∧ repOf (run exGraph) 1 = some 0 ∧
     ((run exGraph).reps 0).map (·.parent) = some (some 1) ∧ ((run exGraph).reps 0).map (·.cbs) = some [1] ∧
     ((run exGraph).trks 1).map (·.entries) = some [(0, true)] ∧ ownedBy (run exGraph) 3 = true := by decide
+
+/-- **F10, the situation itself.**  After an assignment of any kind to a slot variable (`asgS`, `masgS`, `setS`) —
+    also when deleting the old representation destroys its parent, because the old representation *is* its own
+    parent or because the old functor owns the variable whose functor refers to this one — no representation is
+    left with a dead `parent_`, and the parent of the representation now stored in the variable still refers to
+    that variable. -/
+theorem exchange_no_dead_parent {s : State} (hw : WF s) (op : Op)
+    (_hop : (∃ d x, op = .asgS d x) ∨ (∃ d x, op = .masgS d x) ∨ (∃ d f, op = .setS d f))
+    (hc : check s op = none) (he : (apply op s).err = false) :
+    ∀ r R p, (apply op s).reps r = some R → R.parent = some p →
+      ∃ P fid v, (apply op s).reps p = some P ∧ P.fn = some (.sref fid v) ∧ repOf (apply op s) v = some r := by
+  have hw' := apply_wf hw op hc he
+  intro r R p hR hp
+  obtain ⟨v, hv⟩ := hw'.held r R hR
+  obtain ⟨P, fid, hP, hPf⟩ := hw'.inv.parentOk r R p v hR hp hv
+  exact ⟨P, fid, v, hP, hPf, hv⟩
+
+/-- non-vacuity: the F10 program `s = F(); s = bind(g, std::ref(s)); s = F();` — before the third assignment the
+    representation of `S1` is its own parent, the assignment is performed (not refused), deleting the old
+    representation destroys that parent, and the new representation is left without a parent; the ownership
+    variant likewise -/
+def exF10 : State := run [.mkS 1 (.fn 1), .setS 1 (.sref 2 1)]
+def exF10own : State := run [.mkS 1 (.fn 1), .mkS 2 (.sref 2 1), .setS 1 (.own 3 2 none), .mkS 3 (.fn 4)]
+
+example : repOf exF10 1 = some 1 ∧ (exF10.reps 1).map (·.parent) = some (some 1) ∧
+    check exF10 (.setS 1 (.fn 3)) = none ∧ (apply (.setS 1 (.fn 3)) exF10).err = false ∧
+    repOf (apply (.setS 1 (.fn 3)) exF10) 1 = some 2 ∧
+    ((apply (.setS 1 (.fn 3)) exF10).reps 2).map (·.parent) = some none ∧
+    (apply (.setS 1 (.fn 3)) exF10).reps 1 = none := by decide
+
+example : repOf exF10own 1 = some 2 ∧ repOf exF10own 2 = some 1 ∧
+    (exF10own.reps 2).map (·.parent) = some (some 1) ∧ check exF10own (.asgS 1 3) = none ∧
+    (apply (.asgS 1 3) exF10own).slots 2 = none ∧ (apply (.asgS 1 3) exF10own).reps 1 = none ∧
+    repOf (apply (.asgS 1 3) exF10own) 1 = some 4 ∧
+    ((apply (.asgS 1 3) exF10own).reps 4).map (·.parent) = some none := by decide
 
 /-! ## (b) blocking (C12) and the transfer of `blocked_` by the copy/move operations (C15) -/
 
@@ -353,7 +390,7 @@ theorem connected_iff {s : State} (hw : WF s) (c : Nat) :
   constructor
   · rintro ⟨v, hv, he⟩
     obtain ⟨r, R, hr, hR, hcall⟩ := (emptyVar_false_iff s v).mp he
-    obtain ⟨r', R', hr', hR', hm⟩ := hw.inv.connReg c v hv
+    obtain ⟨r', R', hr', hR', hm⟩ := hw.connReg' hv
     rw [hr] at hr'; cases hr'
     rw [hR] at hR'; cases hR'
     exact ⟨v, r, R, hv, hr, hR, hcall, hm⟩
@@ -391,7 +428,7 @@ theorem connected_stays {s : State} (hw : WF s) (op : Op) (c : Nat) (hb : boundC
     have hF := frame_apply hw op hck he
     obtain ⟨v, r, R', hv', hr', hR', hcall', hm'⟩ := (connected_iff hw' c).mp hc
     obtain ⟨X, hX, hmX, hcallX⟩ := hF.regs r R' c hR' hm' (fun h => hb h.symm) hcall'
-    obtain ⟨v0, hv0, hr0⟩ := hw.inv.cbsConn r X c hX hmX
+    obtain ⟨v0, hv0, hr0⟩ := hw.cbsConn' hX hmX
     have hvv : v0 = v := by
       rcases hF.conns c (fun h => hb h.symm) with h | h
       · rw [hv', hv0] at h; cases h; rfl
